@@ -590,6 +590,7 @@ theorem setInitialSolution_inv {s : RS} (h : Inv s) (hact : s.active = s.n) (a0 
     have : s.n ≤ k := by rw [← hact]; exact hk1
     exact absurd hk2 (Nat.not_lt.mpr this)
 
+open Classical in
 /-- **the warm-start vector lies in the box** (boxes contain 0, as for every C-SVM problem) -/
 theorem warmStart_in_box (s : RS) (a1 : Nat → Rat) (bias : Bool)
     (hbox : ∀ k, k < s.n → s.L k ≤ 0 ∧ 0 ≤ s.U k) :
@@ -602,7 +603,8 @@ theorem warmStart_in_box (s : RS) (a1 : Nat → Rat) (bias : Bool)
   · exact hc
   split
   · exact hc
-  rename_i _ hne
+  rename_i _ hG
+  have hne : warmP s a1 ≠ warmN s a1 := fun e => hG (Or.inr e)
   split
   · obtain ⟨hf0, hf1⟩ := warmF_bounds (warmP_nonneg s a1) (warmN_nonneg s a1) hne
     generalize warmF (warmP s a1) (warmN s a1) = f at hf0 hf1 ⊢
@@ -618,26 +620,28 @@ theorem warmStart_in_box (s : RS) (a1 : Nat → Rat) (bias : Bool)
         nlinarith
   · exact hc
 
-/-- **with bias the warm-start vector sums to zero** (exactly, in exact arithmetic): this is what the repair of
-F-C07-2 establishes, and `sum_inv` (C08) keeps it for the whole run -/
-theorem warmStart_sum_zero (s : RS) (a1 : Nat → Rat) : rsum (warmStartVector s a1 true) s.n = 0 := by
+open Classical in
+/-- **with bias the warm-start vector sums to zero whenever clipping changed a coefficient** (exactly, in exact
+arithmetic): this is what the repair of F-C07-2 establishes, and `sum_inv` (C08) keeps it for the whole run -/
+theorem warmStart_sum_zero (s : RS) (a1 : Nat → Rat) (hclip : anyClip s a1) :
+    rsum (warmStartVector s a1 true) s.n = 0 := by
   have hsplit : rsum (clipv s a1) s.n = warmP s a1 - warmN s a1 := by
     unfold warmP warmN; rw [← rsum_sub]; apply rsum_congr; intro i _; split <;> ring
   by_cases hPN : warmP s a1 = warmN s a1
   · have : rsum (warmStartVector s a1 true) s.n = rsum (clipv s a1) s.n := by
       apply rsum_congr; intro k _; rw [warmStartVector_apply]; simp [hPN]
     rw [this, hsplit, hPN, sub_self]
-  · have hP := warmP_nonneg s a1
+  · have hG : ¬ (¬ anyClip s a1 ∨ warmP s a1 = warmN s a1) := fun h => h.elim (fun h' => h' hclip) hPN
+    have hP := warmP_nonneg s a1
     have hN := warmN_nonneg s a1
     by_cases hgt : warmN s a1 < warmP s a1
-    · -- positive side is heavier: positive coefficients are scaled by N/P
-      have hPpos : 0 < warmP s a1 := lt_of_le_of_lt hN hgt
+    · have hPpos : 0 < warmP s a1 := lt_of_le_of_lt hN hgt
       have hF : warmF (warmP s a1) (warmN s a1) = warmN s a1 / warmP s a1 := by unfold warmF; rw [if_pos hgt]
       have : rsum (warmStartVector s a1 true) s.n
           = rsum (fun i => (warmN s a1 / warmP s a1) * (if 0 < clipv s a1 i then clipv s a1 i else 0)
               - (if 0 < clipv s a1 i then 0 else - clipv s a1 i)) s.n := by
         apply rsum_congr; intro k _
-        rw [warmStartVector_apply, if_neg (by simp), if_neg hPN, hF]
+        rw [warmStartVector_apply, if_neg (by simp), if_neg hG, hF]
         by_cases hpos : 0 < clipv s a1 k
         · have hne : clipv s a1 k ≠ 0 := ne_of_gt hpos
           rw [if_pos ⟨⟨fun _ => hgt, fun _ => hpos⟩, hne⟩]; simp only [hpos, if_true]; ring
@@ -645,8 +649,7 @@ theorem warmStart_sum_zero (s : RS) (a1 : Nat → Rat) : rsum (warmStartVector s
       rw [this, rsum_sub, rsum_mul_left]
       show warmN s a1 / warmP s a1 * warmP s a1 - warmN s a1 = 0
       rw [div_mul_cancel₀ _ (ne_of_gt hPpos), sub_self]
-    · -- negative side is heavier: negative coefficients are scaled by P/N
-      have hlt : warmP s a1 < warmN s a1 := lt_of_le_of_ne (not_lt.mp hgt) hPN
+    · have hlt : warmP s a1 < warmN s a1 := lt_of_le_of_ne (not_lt.mp hgt) hPN
       have hNpos : 0 < warmN s a1 := lt_of_le_of_lt hP hlt
       have hF : warmF (warmP s a1) (warmN s a1) = warmP s a1 / warmN s a1 := by
         unfold warmF; rw [if_neg (not_lt.mpr (le_of_lt hlt))]
@@ -654,7 +657,7 @@ theorem warmStart_sum_zero (s : RS) (a1 : Nat → Rat) : rsum (warmStartVector s
           = rsum (fun i => (if 0 < clipv s a1 i then clipv s a1 i else 0)
               - (warmP s a1 / warmN s a1) * (if 0 < clipv s a1 i then 0 else - clipv s a1 i)) s.n := by
         apply rsum_congr; intro k _
-        rw [warmStartVector_apply, if_neg (by simp), if_neg hPN, hF]
+        rw [warmStartVector_apply, if_neg (by simp), if_neg hG, hF]
         by_cases hpos : 0 < clipv s a1 k
         · rw [if_neg (fun h => hgt (h.1.1 hpos))]; simp only [hpos, if_true]; ring
         · by_cases hz : clipv s a1 k = 0
@@ -664,15 +667,29 @@ theorem warmStart_sum_zero (s : RS) (a1 : Nat → Rat) : rsum (warmStartVector s
       show warmP s a1 - warmP s a1 / warmN s a1 * warmN s a1 = 0
       rw [div_mul_cancel₀ _ (ne_of_gt hNpos), sub_self]
 
+open Classical in
+/-- a start vector that already fits the box is passed through unchanged (refined repair b8cdd69a: a feasible solution
+is not rescaled) -- in particular its coefficient sum is whatever it was -/
+theorem warmStart_untouched (s : RS) (a1 : Nat → Rat) (bias : Bool) (h : ¬ anyClip s a1) :
+    ∀ k, k < s.n → warmStartVector s a1 bias k = a1 k := by
+  intro k hk
+  have hc : clipv s a1 k = a1 k := by
+    by_contra hne; exact h ⟨k, hk, hne⟩
+  rw [warmStartVector_apply]
+  split
+  · exact hc
+  · rw [if_pos (Or.inl h)]; exact hc
 
 /-- **a warm-started C-SVM run starts inside the invariant**, whatever coefficients the previous model carries, and
-with bias its coefficient sum is exactly 0 -- so `reachable_inv`, `sum_inv` and `stopped_near_optimal_*` apply to warm
+with bias its coefficient sum is exactly 0 as soon as clipping changed a coefficient or the previous coefficients summed
+to 0 (a previous vector that fits the box is passed through as it is) -- so `reachable_inv`, `sum_inv` and `stopped_near_optimal_*` apply to warm
 starts as to cold ones (this is the configuration-independence clause for warm starts, given termination). -/
 theorem warm_start_inv (n : Nat) (K : Nat → Nat → Rat) (y : Nat → Bool) (Cn Cp : Rat) (w : Nat → Rat) (bias sh : Bool)
     (a1 : Nat → Rat) (hsym : ∀ x y, K x y = K y x) (hCn : 0 ≤ Cn) (hCp : 0 ≤ Cp) (hw : ∀ k, k < n → 0 ≤ w k) :
     let s0 := csvmInit2 n K y Cn Cp w bias sh
     Inv (s0.setInitialSolution (warmStartVector s0 a1 bias)) ∧
-    (bias = true → alphaSum (s0.setInitialSolution (warmStartVector s0 a1 bias)) = 0) := by
+    (bias = true → (anyClip s0 a1 ∨ rsum a1 n = 0) →
+      alphaSum (s0.setInitialSolution (warmStartVector s0 a1 bias)) = 0) := by
   intro s0
   have h0 : Inv s0 := csvmInit2_inv n K y Cn Cp w bias sh hsym hCn hCp hw
   have hbox0 : ∀ k, k < s0.n → s0.L k ≤ 0 ∧ 0 ≤ s0.U k := by
@@ -681,9 +698,14 @@ theorem warm_start_inv (n : Nat) (K : Nat → Nat → Rat) (y : Nat → Bool) (C
     have ha : s0.alpha k = 0 := lit0
     rw [ha] at this; exact this
   refine ⟨setInitialSolution_inv h0 rfl _ (warmStart_in_box s0 a1 bias hbox0), ?_⟩
-  intro hb
+  intro hb hc
   subst hb
-  exact warmStart_sum_zero s0 a1
+  by_cases hclip : anyClip s0 a1
+  · exact warmStart_sum_zero s0 a1 hclip
+  · have hz : rsum a1 n = 0 := hc.resolve_left hclip
+    show rsum (warmStartVector s0 a1 true) s0.n = 0
+    rw [rsum_congr (warmStart_untouched s0 a1 true hclip)]
+    exact hz
 
 example : ∃ (n : Nat) (K : Nat → Nat → Rat) (Cn Cp : Rat) (w : Nat → Rat),
     (∀ x y, K x y = K y x) ∧ 0 ≤ Cn ∧ 0 ≤ Cp ∧ ∀ k, k < n → 0 ≤ w k :=
